@@ -626,5 +626,48 @@ theorem accepts_interleave : ∀ (t : Trace) (st : AS),
           · exact absurd hp ((hdis e (List.mem_cons_self ..) p hm).2 e2 (List.mem_cons_of_mem _ he2) hpe)
 
 
+/-- one accepted step other than `rmrf` never removes a final-named file -/
+theorem step_keeps_finals (S : Spec) (st st' : AS) (e : Ev) (fs : FS) (ha : acceptStep S st e = some st')
+    (hr : (match e.op with | .rmrf _ => false | _ => true) = true) (p : Path) (hp : p.tmp = none)
+    (h : fs.present p = true) : (applyOp S fs e.op).present p = true := by
+  obtain ⟨pid, op, res⟩ := e
+  cases op with
+  | rmrf d => cases hr
+  | statDir d => exact h
+  | mkdir d => exact h
+  | fsync q => exact h
+  | fsyncDir d => exact h
+  | stat q => exact h
+  | openRead q => exact h
+  | run q => exact h
+  | creat q => exact present_creat fs q p (Or.inl h)
+  | append q bs => exact present_append fs q p bs h
+  | close q => exact present_close fs q p h
+  | rename a b =>
+    simp only [acceptStep] at ha
+    split at ha
+    · rename_i hc
+      simp only [Bool.and_eq_true, Bool.not_eq_true', decide_eq_true_eq] at hc
+      have hat : a.isTemp = true := hc.1.1
+      have hne : p ≠ a := ne_of_temp_final hat hp
+      simp only [applyOp]
+      cases hfa : fs.files a with
+      | none => exact h
+      | some f =>
+        simp only
+        rw [present_setFile]
+        simp only [hne, if_false, present_setFile]
+        split
+        · rfl
+        · exact h
+    · cases ha
+  | exec src outs =>
+    simp only [applyOp]
+    cases hfs : fs.files src with
+    | none => exact h
+    | some f =>
+      exact foldl_setFile_present (fun o => some ⟨S.compile o.base f.bytes, true⟩) (fun _ => rfl) outs fs p (Or.inr h)
+
+
 end sched
 end Occa.BuildFS
